@@ -27,7 +27,7 @@ ASSUMPTIONS = [
     "values of the intermediate-analysis store `meta` are shared unless deep_copy=True (documented); only the store itself must be a new object",
     "cloning a topologically unsorted graph may raise (documented assumption of the cloner)",
 ]
-BUDGET = {"quick": (16, 600), "thorough": (16, 12000)}
+BUDGET = {"quick": (16, 1200), "thorough": (16, 12000)}
 KINDS = ["Model.clone", "Graph.clone", "Graph.clone(allow_outer)", "Subgraph.clone", "Subgraph.clone(allow_outer)", "Function.clone",
          "GraphView.clone", "functionalize"]
 N_SET = 16
